@@ -14,16 +14,23 @@
 //! (every value of every key; `spaced` = `; ` between attributes and a trailing `;`, `quoted` = additionally every
 //! value in double quotes, the usual GTF look) and lets the real reader read that: `m:<hex>=<results>` (GFF only).
 //!
-//! Observation: `w:<hex> r:<results> c:<results> rw:<hex|x> f:<faulted hex>=<results>` (for `cut`:
+//! Observation: `w:<hex> r:<results> c:<hex>=<results> rw:<hex|x> f:<faulted hex>=<results>` (for `cut`:
 //! `f:<results>/<results>…`, one per offset; for `none`: `f:-`).  `w` = bytes written by the real writer, `r` = the
-//! real reader on `w`, `c` = the real reader on `w` with the comment lines inserted, `rw` = the records of `r`
-//! written again (GFF only; `x` when `r` has an error).  results = `|`-list of `err` / `ok=<record>`;
+//! real reader on `w`, `c` = `w` with the comment lines inserted at record boundaries (a line feed outside quotes)
+//! and the real reader on that, `rw` = the records of `r` written again (GFF only; `x` when `r` has an error).  results = `|`-list of `err` / `ok=<record>`;
 //! BED record = `chrom;start;end;aux…~name~score~strand` (accessors; `N` = None, strand f|r|n);
 //! GFF record = `seq;src;type;start;end;<score N|number>;<strand f|r|n>;<phase>;<attrs, keys sorted>`.
 //!
-//! Domain (recorded in meta/C13.json): fields are printable ASCII without `"`, the first field does not start
-//! with `#`, BED records of one case have the same number of columns, attribute keys/values are non-empty, avoid
-//! the dialect's delimiters, do not begin or end with a quote character, keys do not begin with a blank.
+//! Domain (recorded in meta/C13.json): text columns are arbitrary ASCII byte strings (0x00..0x7f: `"`, TAB, CR, LF,
+//! backslash, `#`, blanks, empty …; the csv layer is modelled, the model is byte-transparent, non-ASCII is left out
+//! only because truncation could cut a UTF-8 sequence), BED records of one case have the same number of columns,
+//! attribute keys/values are non-empty ASCII, avoid the dialect's delimiters and TAB, do not begin or end with a
+//! quote character, keys do not begin with a blank.  A first column that starts with `#` and needs no csv quotes is
+//! written as a line that begins with `#`, i.e. a comment line of the format: such a record is outside the domain.
+//! It is generated on purpose, rarely: the driver then only demands that nothing panics and that the records before
+//! it round-trip (tag `hash-start-outside-domain`).
+//! Styles of the harness' own writer: `plain`, `spaced`, `quoted` as before (columns csv-quoted where necessary,
+//! incl. a first column that starts with `#`), `csvq` = every column in csv quotes (`QuoteStyle::Always` look).
 use crate::util::*;
 use bio::io::{bed, gff};
 use std::cell::RefCell;
@@ -44,7 +51,24 @@ impl Write for Shared {
 }
 
 fn field_ok(b: &[u8]) -> bool {
-    b.iter().all(|&c| (0x20..=0x7e).contains(&c) && c != b'"')
+    b.iter().all(|&c| c < 0x80)
+}
+
+/// a field as csv's `QuoteStyle::Necessary` would write it (`force`: in quotes regardless)
+fn csv_quote(b: &[u8], force: bool) -> Vec<u8> {
+    if force || b.iter().any(|&c| c == b'\t' || c == b'"' || c == b'\r' || c == b'\n') {
+        let mut o = vec![b'"'];
+        for &c in b {
+            if c == b'"' {
+                o.push(b'"');
+            }
+            o.push(c);
+        }
+        o.push(b'"');
+        o
+    } else {
+        b.to_vec()
+    }
 }
 
 fn s(b: &[u8]) -> String {
@@ -87,6 +111,7 @@ fn attr_ok(b: &[u8], delim: u8, term: u8, vdelim: u8, is_key: bool) -> bool {
     let q = |c: u8| c == b'\'' || c == b'"';
     !b.is_empty()
         && field_ok(b)
+        && !b.contains(&b'\t')
         && !b.contains(&delim)
         && !b.contains(&term)
         && (is_key || !b.contains(&vdelim))
@@ -108,7 +133,7 @@ fn parse_bed(tok: &str) -> Result<Vec<BedRec>, String> {
             end: parse(f[2])?,
             aux: f[3..].iter().map(|x| unhex(x)).collect::<Result<_, _>>()?,
         };
-        if !field_ok(&rec.chrom) || rec.chrom.first() == Some(&b'#') || !rec.aux.iter().all(|a| field_ok(a)) {
+        if !field_ok(&rec.chrom) || !rec.aux.iter().all(|a| field_ok(a)) {
             return Err("field outside the domain".into());
         }
         out.push(rec);
@@ -158,9 +183,7 @@ fn parse_gff(tok: &str, d: &str) -> Result<Vec<GffRec>, String> {
             phase,
             attrs,
         };
-        if ![&rec.seq, &rec.src, &rec.typ, &rec.score, &rec.strand].iter().all(|x| field_ok(x))
-            || rec.seq.first() == Some(&b'#')
-        {
+        if ![&rec.seq, &rec.src, &rec.typ, &rec.score, &rec.strand].iter().all(|x| field_ok(x)) {
             return Err("field outside the domain".into());
         }
         out.push(rec);
@@ -175,8 +198,10 @@ fn parse_comments(tok: &str, nrec: usize) -> Result<Vec<(usize, Vec<u8>)>, Strin
         // `eof:<hex>`: a comment line at the very end of the file that is NOT terminated by a newline
         let pos: usize = if p == "eof" { usize::MAX } else { parse(p)? };
         let line = unhex(h)?;
-        let printable = line.iter().all(|&c| c == b'\t' || ((0x20..=0x7e).contains(&c) && c != b'"'));
-        if (pos > nrec && pos != usize::MAX) || !printable || !(line.is_empty() || line[0] == b'#') {
+        // a comment line (`#…`, any ASCII but LF) or a blank line (empty, or carriage returns only)
+        let printable = line.iter().all(|&c| c < 0x80 && c != b'\n');
+        let blank = line.iter().all(|&c| c == b'\r');
+        if (pos > nrec && pos != usize::MAX) || !printable || !(blank || line[0] == b'#') {
             return Err("comment outside the domain".into());
         }
         if pos == usize::MAX && (line.is_empty() || out.iter().any(|(q, _)| *q == usize::MAX)) {
@@ -187,12 +212,21 @@ fn parse_comments(tok: &str, nrec: usize) -> Result<Vec<(usize, Vec<u8>)>, Strin
     Ok(out)
 }
 
-/// the written file with the comment lines inserted before the records they are attached to
+/// the written file with the comment lines inserted before the records they are attached to.  Record boundaries
+/// are the line feeds outside quotes (quote parity: whenever the csv reader is inside a quoted field the number
+/// of quotes seen so far is odd, so a line feed at even parity always ends a record).
 fn with_comments(w: &[u8], comments: &[(usize, Vec<u8>)]) -> Result<Vec<u8>, String> {
-    let mut lines: Vec<&[u8]> = w.split(|&c| c == b'\n').collect();
-    if lines.last().map(|l| l.is_empty()).unwrap_or(false) {
-        lines.pop();
+    let mut lines: Vec<&[u8]> = vec![];
+    let (mut begin, mut inq) = (0usize, false);
+    for (i, &c) in w.iter().enumerate() {
+        if c == b'"' {
+            inq = !inq;
+        } else if c == b'\n' && !inq {
+            lines.push(&w[begin..i]);
+            begin = i + 1;
+        }
     }
+    let tail = &w[begin..];
     let mut out = vec![];
     for i in 0..=lines.len() {
         for (p, c) in comments {
@@ -209,6 +243,7 @@ fn with_comments(w: &[u8], comments: &[(usize, Vec<u8>)]) -> Result<Vec<u8>, Str
             out.push(b'\n');
         }
     }
+    out.extend_from_slice(tail); // bytes after the last boundary (none for a well-formed file)
     for (p, c) in comments {
         if *p == usize::MAX {
             out.extend_from_slice(c); // no terminating newline
@@ -254,7 +289,7 @@ fn apply_fault(w: &[u8], tok: &str) -> Result<Fault, String> {
         ("set", 4) => {
             let (l, c): (usize, usize) = (parse(p[1])?, parse(p[2])?);
             let b = unhex(p[3])?;
-            if l >= n || c >= lines[l].len() || !field_ok(&b) || (c == 0 && b.first() == Some(&b'#')) {
+            if l >= n || c >= lines[l].len() || !field_ok(&b) {
                 return Err("set outside the file / domain".into());
             }
             lines[l][c] = b;
@@ -282,9 +317,6 @@ fn apply_fault(w: &[u8], tok: &str) -> Result<Fault, String> {
                 return Err("del outside the file".into());
             }
             lines[l].remove(c);
-            if lines[l][0].first() == Some(&b'#') || (lines[l].len() == 1 && lines[l][0].is_empty()) {
-                return Err("del would create a comment or blank line".into());
-            }
         }
         _ => return Err("fault".into()),
     }
@@ -436,6 +468,7 @@ fn intended_bytes(recs: &[GffRec], d: &str, style: &str) -> Result<Vec<u8>, Stri
         "plain" => (&[term][..], false, false),
         "spaced" => (&[term, b' '][..], true, false),
         "quoted" => (&[term, b' '][..], true, true),
+        "csvq" => (&[term][..], false, false),
         _ => return Err("style".into()),
     };
     let sep = sep.to_vec();
@@ -483,7 +516,27 @@ fn intended_bytes(recs: &[GffRec], d: &str, style: &str) -> Result<Vec<u8>, Stri
             phase.into_bytes(),
             attrs,
         ];
-        out.extend(fields.join(&b'\t'));
+        // csv layer: every column in quotes (`csvq`), else quotes where the content needs them; a first column
+        // that starts with `#` is quoted as well (it would be taken for a comment); the attribute column stays as
+        // it is unless it cannot be read literally (real GTF files carry `key "value";` without csv quoting)
+        let all = style == "csvq";
+        let cols: Vec<Vec<u8>> = fields
+            .iter()
+            .enumerate()
+            .map(|(i, f)| {
+                if i == 8 && !all {
+                    let must = f.first() == Some(&b'"') || f.iter().any(|&c| c == b'\t' || c == b'\r' || c == b'\n');
+                    if must {
+                        csv_quote(f, true)
+                    } else {
+                        f.clone()
+                    }
+                } else {
+                    csv_quote(f, all || (i == 0 && f.first() == Some(&b'#')))
+                }
+            })
+            .collect();
+        out.extend(cols.join(&b'\t'));
         out.push(b'\n');
     }
     Ok(out)
@@ -503,7 +556,8 @@ pub fn exec(toks: &[&str]) -> Result<String, String> {
             let w = bed_write(&recs)?;
             let fault = apply_fault(&w, toks[3])?;
             let r = bed_read(&w);
-            let c = bed_read(&with_comments(&w, &comments)?);
+            let cb = with_comments(&w, &comments)?;
+            let c = format!("{}={}", hex(&cb), bed_read(&cb));
             let f = match fault {
                 Fault::None => "-".to_string(),
                 Fault::Bytes(b) => format!("{}={}", hex(&b), bed_read(&b)),
@@ -522,7 +576,8 @@ pub fn exec(toks: &[&str]) -> Result<String, String> {
             let fault = apply_fault(&w, toks[4])?;
             let (r, back, all_ok) = gff_read(&w, t);
             let rw = if all_ok { hex(&gff_write_real(&back, t)?) } else { "x".to_string() };
-            let (c, _, _) = gff_read(&with_comments(&w, &comments)?, t);
+            let cb = with_comments(&w, &comments)?;
+            let c = format!("{}={}", hex(&cb), gff_read(&cb, t).0);
             let f = match fault {
                 Fault::None => "-".to_string(),
                 Fault::Bytes(b) => format!("{}={}", hex(&b), gff_read(&b, t).0),
@@ -551,10 +606,43 @@ fn rand_field(rng: &mut Rng, allow_empty: bool) -> Vec<u8> {
     rng.seq(alpha, len)
 }
 
-fn rand_first_field(rng: &mut Rng) -> Vec<u8> {
+/// bytes with a meaning in the csv layer (quote twice as likely), a blank, and two ordinary ones
+const SPECIAL: &[u8] = b"\"\"\\\t\n\r# ab'";
+/// hand-picked contents: quotes at either end, inside, alone, doubled; backslash next to a quote; TAB / LF / CR /
+/// CRLF inside or alone; leading `#` with and without a byte that forces quotes; blanks at the ends; control bytes
+const NASTY: &[&[u8]] = &[
+    b"\"", b"\"\"", b"\"\"\"", b"a\"b", b"\"a\"", b"\"a", b"a\"", b"\"\\", b"\\\"", b"a\\b\"c", b"\\", b"a\\",
+    b"\\\tx", b"\\\n", b"\t", b"a\tb", b"\n", b"a\nb", b"\r", b"a\rb", b"\r\n", b"a\r\nb", b"\n\n",
+    b"#", b"#a", b"a#", b"#\"", b"#\ta", b"# x\n", b" ", b" a", b"a ", b" a ", b"\x00", b"\x7f", b"a\x0bb",
+    b"\"a\"\"b\"", b"\",\"", b"'\"'", b"\"\t\"", b"\"\n\"", b"\\\\\"",
+];
+
+/// a field of the csv-sensitive classes (only in files generated in `q` mode)
+fn rand_special(rng: &mut Rng) -> Vec<u8> {
+    if rng.chance(1, 2) {
+        rng.pick(NASTY).to_vec()
+    } else {
+        let len = 1 + rng.below(6);
+        rng.seq(SPECIAL, len)
+    }
+}
+
+/// `q`: the file is generated in csv-sensitive mode, where every other text field is a special one
+fn rand_text(rng: &mut Rng, q: bool, allow_empty: bool) -> Vec<u8> {
+    if q && rng.chance(1, 2) {
+        rand_special(rng)
+    } else {
+        rand_field(rng, allow_empty)
+    }
+}
+
+/// first column: a leading `#` that csv does not quote (the written line is a comment line: outside the domain) is
+/// generated only in `q` mode and there only rarely
+fn rand_first_field(rng: &mut Rng, q: bool) -> Vec<u8> {
     loop {
-        let f = rand_field(rng, true);
-        if f.first() != Some(&b'#') {
+        let f = rand_text(rng, q, true);
+        let lost = f.first() == Some(&b'#') && !f.iter().any(|&c| c == b'\t' || c == b'"' || c == b'\r' || c == b'\n');
+        if !lost || (q && rng.chance(1, 8)) {
             return f;
         }
     }
@@ -605,9 +693,17 @@ fn gen_comments(rng: &mut Rng, nrec: usize) -> String {
     let cs: Vec<String> = (0..n)
         .map(|_| {
             let pos = rng.below(nrec + 1);
-            let line: Vec<u8> = match rng.below(5) {
+            let line: Vec<u8> = match rng.below(7) {
                 0 => vec![],
                 1 => b"#".to_vec(),
+                5 => b"\r".to_vec(),
+                6 => {
+                    // a comment with bytes that mean something elsewhere: quotes (also unbalanced), CR, TAB
+                    let mut l = b"#".to_vec();
+                    let k = 1 + rng.below(6);
+                    l.extend(rng.seq(b"\"\"\r\t\\ a#", k));
+                    l
+                }
                 2 => {
                     // a comment that looks like a record
                     let mut l = b"#chr1\t5\t9".to_vec();
@@ -651,8 +747,18 @@ fn gen_fault(rng: &mut Rng, nrec: usize, ncol: usize, numeric: &[usize], phase: 
         return if rng.chance(1, 2) { "none".into() } else { "cut:0".into() };
     }
     let line = rng.below(nrec);
-    match rng.below(12) {
+    match rng.below(14) {
         0 | 1 => "none".into(),
+        12 | 13 => {
+            // reader-side quoting: a column replaced by raw bytes with quotes in all positions (quoted numbers,
+            // text after a closing quote, quotes inside an unquoted field, an unterminated quote, CR as line end,
+            // a column that turns the line into a comment)
+            let raw: &[&[u8]] = &[
+                b"\"5\"", b"\"x\"y", b"a\"b", b"\"", b"\"\"", b"\"a\"\"b\"", b"\"a\tb\"", b"\"a\nb\"", b"a\rb", b"#x", b"\"#x\"",
+                b"\"12\"3", b"1\"2\"", b"\"\"7", b"\"a\\\"", b"\"a\\\"\"b\"", b"x\"\"", b"\" \"", b"\r", b"\"\r\n\"",
+            ];
+            format!("set:{}:{}:{}", line, rng.below(ncol), hex(*rng.pick(raw)))
+        }
         2 | 3 => {
             // bad number
             let col = *rng.pick(numeric);
@@ -697,9 +803,10 @@ fn gen_bed(rng: &mut Rng, every_cut: bool) -> String {
         1 | 2 => 1,
         _ => 2 + rng.below(5),
     };
+    let q = rng.chance(2, 5);
     let recs: Vec<BedRec> = (0..n)
         .map(|_| BedRec {
-            chrom: rand_first_field(rng),
+            chrom: rand_first_field(rng, q),
             start: rand_u64(rng),
             end: rand_u64(rng),
             aux: (0..k)
@@ -707,7 +814,7 @@ fn gen_bed(rng: &mut Rng, every_cut: bool) -> String {
                     if j == 2 && rng.chance(2, 3) {
                         rng.pick(&[&b"+"[..], b"-", b".", b""]).to_vec()
                     } else {
-                        rand_field(rng, true)
+                        rand_text(rng, q, true)
                     }
                 })
                 .collect(),
@@ -724,11 +831,17 @@ fn gen_bed(rng: &mut Rng, every_cut: bool) -> String {
     format!("bed {} {} {}", join(&recs_s, "/"), gen_comments(rng, n), fault)
 }
 
-fn rand_attr_token(rng: &mut Rng, delim: u8, term: u8, vdelim: u8, is_key: bool) -> Vec<u8> {
+fn rand_attr_token(rng: &mut Rng, delim: u8, term: u8, vdelim: u8, is_key: bool, q: bool) -> Vec<u8> {
     loop {
         let cap = if rng.chance(1, 4) { 12 } else { 5 };
         let len = 1 + rng.below(cap);
-        let alpha: &[u8] = if rng.chance(1, 3) { b"ab1 .-_#'=,:+|/()@" } else { b"abcID_019." };
+        let alpha: &[u8] = if q && rng.chance(1, 2) {
+            b"ab\"\"\\\n\r#' "
+        } else if rng.chance(1, 3) {
+            b"ab1 .-_#'=,:+|/()@"
+        } else {
+            b"abcID_019."
+        };
         let t: Vec<u8> = rng.seq(alpha, len);
         if attr_ok(&t, delim, term, vdelim, is_key) {
             return t;
@@ -746,6 +859,7 @@ fn gen_gff(rng: &mut Rng, every_cut: bool) -> String {
     };
     // a third of the files has single-valued attributes only
     let multi = !rng.chance(1, 3);
+    let q = rng.chance(2, 5);
     let recs: Vec<GffRec> = (0..n)
         .map(|_| {
             let nk = match rng.below(6) {
@@ -755,14 +869,14 @@ fn gen_gff(rng: &mut Rng, every_cut: bool) -> String {
             };
             let mut attrs: Vec<(Vec<u8>, Vec<Vec<u8>>)> = vec![];
             for _ in 0..nk {
-                let k = rand_attr_token(rng, delim, term, vdelim, true);
+                let k = rand_attr_token(rng, delim, term, vdelim, true, q);
                 let nv = if multi && rng.chance(1, 3) { 2 + rng.below(3) } else { 1 };
                 let vs: Vec<Vec<u8>> = (0..nv)
                     .map(|_| {
                         if rng.chance(1, 8) && !attrs.is_empty() {
                             attrs[0].1[0].clone() // a repeated value
                         } else {
-                            rand_attr_token(rng, delim, term, vdelim, false)
+                            rand_attr_token(rng, delim, term, vdelim, false, q)
                         }
                     })
                     .collect();
@@ -771,9 +885,9 @@ fn gen_gff(rng: &mut Rng, every_cut: bool) -> String {
                 }
             }
             GffRec {
-                seq: rand_first_field(rng),
-                src: rand_field(rng, true),
-                typ: rand_field(rng, true),
+                seq: rand_first_field(rng, q),
+                src: rand_text(rng, q, true),
+                typ: rand_text(rng, q, true),
                 start: rand_u64(rng),
                 end: rand_u64(rng),
                 score: match rng.below(6) {
@@ -781,9 +895,14 @@ fn gen_gff(rng: &mut Rng, every_cut: bool) -> String {
                     2 => rand_u64(rng).to_string().into_bytes(),
                     3 => rng.below(1000).to_string().into_bytes(),
                     4 => rng.pick(&[&b"0.5"[..], b"1e5", b"abc", b"-3", b"1.0"]).to_vec(),
+                    5 if q => rand_special(rng),
                     _ => b"50".to_vec(),
                 },
-                strand: rng.pick(&[&b"+"[..], b"-", b".", b"?", b"+", b"-"]).to_vec(),
+                strand: if q && rng.chance(1, 4) {
+                    rand_special(rng)
+                } else {
+                    rng.pick(&[&b"+"[..], b"-", b".", b"?", b"+", b"-"]).to_vec()
+                },
                 phase: *rng.pick(&[None, Some(0), Some(1), Some(2)]),
                 attrs,
             }
@@ -797,7 +916,7 @@ fn gen_gff(rng: &mut Rng, every_cut: bool) -> String {
         safe_fault(written.as_deref(), gen_fault(rng, n, 9, &[3, 4], Some(7), wlen))
     };
     let recs_s: Vec<String> = recs.iter().map(fmt_gff).collect();
-    let style = *rng.pick(&["plain", "plain", "spaced", "quoted"]);
+    let style = *rng.pick(&["plain", "plain", "spaced", "quoted", "csvq"]);
     format!("gff {} {} {} {} {}", d, join(&recs_s, "/"), gen_comments(rng, n), fault, style)
 }
 
